@@ -216,7 +216,8 @@ impl<'a> Visitor for Enumerate<'a> {
         }
         // ---------------- (a) depth 1
         let a2 = alpha_alphabet::<F>(l, &[2.0, -0.5], 0);
-        let b2 = alpha_alphabet::<F>(l, &[2.0, -0.5], l.nslots());
+        // the second operand also takes the real part 1 (is_one shortcuts of products and quotients)
+        let b2 = alpha_alphabet::<F>(l, &[2.0, -0.5, 1.0], l.nslots());
         let c1 = alpha_alphabet::<F>(l, &[0.5], 2 * l.nslots());
         let ops = depth1_ops();
         let mut jobs: Vec<(Op, Vec<usize>)> = Vec::new();
@@ -675,6 +676,7 @@ fn universe(tier: Tier, v: &mut impl Visitor) {
     v.visit::<f64, HyperDualVec<f64, f64, Const<1>, Const<2>>>(Dims::mn(1, 2));
     v.visit::<f64, HyperDualVec<f64, f64, Const<2>, Const<2>>>(Dims::mn(2, 2));
     v.visit::<f64, DualVec<Dual64, f64, Const<2>>>(Dims::n(2));
+    v.visit::<f64, Dual2Vec<Dual64, f64, Const<1>>>(Dims::n(1));
     v.visit::<f32, DualVec<f32, f32, Const<2>>>(Dims::n(2));
     v.visit::<f32, Dual2Vec<f32, f32, Const<2>>>(Dims::n(2));
     let lens: &[usize] = if tier == Tier::Thorough { &[0, 1, 2, 3] } else { &[0, 2] };
